@@ -62,9 +62,13 @@ type c10Case struct {
 	// client part: response variants (V = response version, C = Connection value)
 	Resps []c10Req `json:"resps,omitempty"`
 	// shutdown part
-	CloseOnShutdown bool   `json:"close_on_shutdown,omitempty"`
-	ShutdownAt      int    `json:"shutdown_at,omitempty"`
-	Text            string `json:"text,omitempty"` // human readable rendering
+	CloseOnShutdown bool `json:"close_on_shutdown,omitempty"`
+	ShutdownAt      int  `json:"shutdown_at,omitempty"`
+	// client part: 0 buffered responses, 1 StreamResponseBody + body read to EOF + CloseBodyStream, 2 StreamResponseBody + CloseBodyStream at once
+	ClientStream int `json:"client_stream,omitempty"`
+	// client part: 0 "ok" with Content-Length, 1 Content-Length 40 (> MaxResponseBodySize 16 when streaming: read from the connection), 2 chunked (HTTP/1.0 responses: as 1)
+	ClientBody int    `json:"client_body,omitempty"`
+	Text       string `json:"text,omitempty"` // human readable rendering
 }
 
 // c10HasToken is the reference reading of a Connection field value: a comma separated list of case-insensitive tokens
@@ -388,13 +392,33 @@ func c10Explore(r *vrt.R, s *Server, cs c10Case, maxLen int, cnt *int) {
 
 // ---------------------------------------------------------------------------------------------------- client side
 
-func c10RespText(q c10Req) string {
+var c10ClientStreams = []string{"buffered", "stream-body-read-to-eof", "stream-body-closed-early"}
+
+func c10RespBody(body int) string {
+	if body == 0 {
+		return "ok"
+	}
+	return strings.Repeat("x", 40)
+}
+
+func c10RespText(q c10Req, body int) string {
 	var b strings.Builder
-	fmt.Fprintf(&b, "HTTP/1.%d 200 OK\r\nContent-Length: 2\r\n", 1-q.V)
+	fmt.Fprintf(&b, "HTTP/1.%d 200 OK\r\n", 1-q.V)
+	chunked := body == 2 && q.V == 0
+	if chunked {
+		b.WriteString("Transfer-Encoding: chunked\r\n")
+	} else {
+		fmt.Fprintf(&b, "Content-Length: %d\r\n", len(c10RespBody(body)))
+	}
 	if q.C != 0 {
 		fmt.Fprintf(&b, "Connection: %s\r\n", c10ConnVals[q.C])
 	}
-	b.WriteString("\r\nok")
+	b.WriteString("\r\n")
+	if chunked {
+		fmt.Fprintf(&b, "%x\r\n%s\r\n0\r\n\r\n", len(c10RespBody(body)), c10RespBody(body))
+	} else {
+		b.WriteString(c10RespBody(body))
+	}
 	return b.String()
 }
 
@@ -409,7 +433,7 @@ func c10RunClient(r *vrt.R, cs c10Case) {
 		defer mu.Unlock()
 		var chunks [][]byte
 		for j := cur; j < n; j++ {
-			chunks = append(chunks, []byte(c10RespText(cs.Resps[j])))
+			chunks = append(chunks, []byte(c10RespText(cs.Resps[j], cs.ClientBody)))
 		}
 		c := vnet.NewConn(chunks...)
 		c.AtEnd = vnet.ErrBlock
@@ -417,10 +441,15 @@ func c10RunClient(r *vrt.R, cs c10Case) {
 		firstIdx = append(firstIdx, cur)
 		return c, nil
 	}}
+	if cs.ClientStream > 0 {
+		hc.StreamResponseBody = true
+		hc.MaxResponseBodySize = 16
+	}
 	text := func() string {
 		var b strings.Builder
+		b.WriteString("[client " + c10ClientStreams[cs.ClientStream] + "] ")
 		for _, q := range cs.Resps {
-			b.WriteString(strconv.Quote(c10RespText(q)) + " ")
+			b.WriteString(strconv.Quote(c10RespText(q, cs.ClientBody)) + " ")
 		}
 		return b.String()
 	}
@@ -432,10 +461,27 @@ func c10RunClient(r *vrt.R, cs c10Case) {
 		resp := AcquireResponse()
 		req.SetRequestURI(fmt.Sprintf("http://h/%d", i))
 		err := hc.Do(req, resp)
-		body := string(resp.Body())
+		body := c10RespBody(cs.ClientBody)
+		if err == nil {
+			switch cs.ClientStream {
+			case 0:
+				body = string(resp.Body())
+			case 1:
+				var b []byte
+				b, err = io.ReadAll(resp.BodyStream())
+				body = string(b)
+				if e2 := resp.CloseBodyStream(); err == nil {
+					err = e2
+				}
+				r.Add("client_streamed_bodies_read_to_eof", 1)
+			case 2:
+				err = resp.CloseBodyStream()
+				r.Add("client_streamed_bodies_closed_early", 1)
+			}
+		}
 		ReleaseRequest(req)
 		ReleaseResponse(resp)
-		if err != nil || body != "ok" {
+		if err != nil || body != c10RespBody(cs.ClientBody) {
 			r.ToolError("client Do %d failed on scripted responses %s: err=%v body=%q", i, text(), err, body)
 		}
 	}
@@ -464,7 +510,11 @@ func c10RunClient(r *vrt.R, cs c10Case) {
 			if cv := c10ConnVals[prev.C]; c10HasToken(cv, "close") {
 				cs2 := cs
 				cs2.Text = text()
-				r.Violation("client-reused-connection-after-close-response:close-token"+c10TokenShape(cv, "close"),
+				sg := "client-reused-connection-after-close-response:close-token" + c10TokenShape(cv, "close")
+				if cs.ClientStream > 0 {
+					sg += ":" + c10ClientStreams[cs.ClientStream]
+				}
+				r.Violation(sg,
 					fmt.Sprintf("HostClient wrote request %d on the connection whose response %d said Connection: %s; responses=%s",
 						idx[j], idx[j-1], cv, cs2.Text), cs2)
 			}
@@ -607,7 +657,7 @@ func TestVerif_C10(t *testing.T) {
 		"(extended only while the server kept the connection open), x DisableKeepalive{off,on} x MaxRequestsPerConn{0,1,2} x delivery{one chunk per request, pipelined}, "+
 		"through Server.ServeConn on a scripted connection; oracle per response: close token in the Connection header sent (case-insensitive list member) <=> no further Read, "+
 		"every close the statement requires is announced and done, HTTP/1.0 persistent responses carry keep-alive (handlers <Timeout...> make the server answer from a swapped RequestCtx). "+
-		"client: every sequence of %d scripted responses over version x Connection values, HostClient.Do sequentially; oracle: no request is written on a connection after a response with a close token. "+
+		"client: every sequence of %d scripted responses over version x Connection values, x response handling{buffered, StreamResponseBody read to EOF then closed, StreamResponseBody closed at once} x body{2 bytes with Content-Length, 40 bytes > MaxResponseBodySize (streamed from the connection), chunked}, HostClient.Do sequentially; oracle: no request is written on a connection after a response with a close token. "+
 		"shutdown: real Serve/Shutdown, Shutdown started in the handler of request 1..2 x CloseOnShutdown. "+
 		"non-trivial: histories whose last response the statement requires to close", maxLen, c10ConnVals, c10HandVals, clientLen))
 	r.Assume("net/http.ReadResponse frames the server output; Connection is a case-insensitive comma list (RFC 9110 7.6.1) — own reader cross-checked against net/http's Close on every response and request variant",
@@ -679,8 +729,13 @@ func TestVerif_C10(t *testing.T) {
 			for _, sy := range seq[:clientLen] {
 				cs.Resps = append(cs.Resps, c10Req{V: sy / len(c10ConnVals), C: sy % len(c10ConnVals)})
 			}
-			c10RunClient(r, cs)
-			cnt++
+			for stream := range c10ClientStreams {
+				for body := 0; body < 3; body++ {
+					cs.ClientStream, cs.ClientBody = stream, body
+					c10RunClient(r, cs)
+					cnt++
+				}
+			}
 			closeSeen := false
 			for _, q := range cs.Resps[:clientLen-1] {
 				closeSeen = closeSeen || c10HasToken(c10ConnVals[q.C], "close")
